@@ -30,7 +30,7 @@ PREFIX = "Pair:"
 # (none at present); module attribute PAIR_EXCLUDE = {"SystemName", ...} adds to it
 EXCLUDE = {}
 
-NODE_CAP = {"quick": 6000, "thorough": 150000}
+NODE_CAP = {"quick": 6000, "thorough": 40000}
 # systems whose single step costs a millisecond or more (tree builds, histograms, kNN graphs, PCA, ensembles): a quarter
 # of the node budget (deterministic, so that the bound explored does not depend on the machine's load)
 HEAVY = ("Kdq", "PCACD", "NNDVI", "HDDDM", "CDBD", "MD3", "Stream", "Batch", "Multi", "Ens")
@@ -41,7 +41,7 @@ def node_cap(tier, system_name):
     if any(h in system_name for h in HEAVY):
         cap //= 4
     return cap
-CFGS_PER_SYSTEM = {"quick": 3, "thorough": 8}
+CFGS_PER_SYSTEM = {"quick": 3, "thorough": 5}
 DEFAULT_ON = "0"  # flipped to "1" once every check has been run silent with pairs (VERIF_PAIRS overrides)
 
 
